@@ -1,9 +1,44 @@
-import MaestroVerif.Model.Exec
+import MaestroVerif.Lemmas.ExecDemo
 
-/-! # C03 — The number of in-flight jobs never exceeds the throttle (theorems are being added) -/
+/-!
+# C03 — The number of in-flight jobs never exceeds the throttle
+
+`live` is the ghost ledger of scheduler jobs (added when a scheduler submission
+returns OK, removed when a terminal state is answered for the job) and `peak`
+the maximum of its size over *every instant* of the history (it is updated at
+each change of the ledger, inside a poll, not only at poll boundaries).
+-/
 namespace MaestroVerif.C03
 open MaestroVerif.Exec MaestroVerif.Gen
 
-theorem C03_init_not_canceled (cfg : Cfg) : (init cfg).isCanceled = false := rfl
+/-- **At no moment were more than `throttle` jobs live.** -/
+theorem C03_throttle {cfg : Cfg} (wf : WFCfg' cfg) {g : G} (h : Reachable cfg g)
+    (ht : 0 < cfg.throttle) : g.peak ≤ cfg.throttle :=
+  (invAll_reachable wf h).b.peak ht
+
+/-- the ledger and the tracking agree: the live jobs are exactly the jobs of
+the in-progress steps, one per step -/
+theorem C03_live_eq_in_progress {cfg : Cfg} (wf : WFCfg' cfg) {g : G} (h : Reachable cfg g) :
+    (∀ x, x ∈ g.live ↔ x ∈ g.inProgress) ∧ g.live.Nodup ∧ g.inProgress.Nodup ∧
+      g.live.length = g.inProgress.length := by
+  have b := (invAll_reachable wf h).b
+  exact ⟨b.liveEq, b.liveN, b.ipN, length_eq_of_nodup b.liveN b.ipN b.liveEq⟩
+
+theorem C03_tracked_le_throttle {cfg : Cfg} (wf : WFCfg' cfg) {g : G} (h : Reachable cfg g)
+    (ht : 0 < cfg.throttle) : g.live.length ≤ cfg.throttle := by
+  have := (C03_live_eq_in_progress wf h).2.2.2
+  have := (invAll_reachable wf h).b.thr ht
+  omega
+
+/-- With no throttle every step in the ready queue is taken out of it in the
+same poll (`available` is the whole queue). -/
+theorem C03_unthrottled_takes_all (cfg : Cfg) (g : G) (h0 : cfg.throttle = 0) :
+    available cfg g = g.ready.length := by
+  simp [available, h0]
+
+/-! non-vacuity: in the demo history the throttle (2) is reached exactly -/
+example : 0 < demoCfg.throttle ∧ (run demoCfg demoOps).peak = 2 ∧
+    (run demoCfg demoOps).peak ≤ demoCfg.throttle :=
+  ⟨by decide, demo_state.2.2.2.2.1, C03_throttle demo_wf demo_reachable (by decide)⟩
 
 end MaestroVerif.C03
